@@ -2,7 +2,7 @@
    witnesses for the sharing that the current code still has. *)
 From Coq Require Import ZArith List Bool Lia.
 Import ListNotations.
-Require Import PyBase Heap HeapFacts HeapFrame HeapCopy HeapHistory HeapSim HeapOps HeapLinkerSim HeapProtect HeapLinkerCopySim HeapLinkerInit HeapForest HeapForestCopy.
+Require Import PyBase Heap HeapFacts HeapFrame HeapCopy HeapHistory HeapSim HeapOps HeapLinkerSim HeapProtect HeapLinkerCopySim HeapLinkerInit HeapForest HeapForestCopy HeapDefined.
 Open Scope Z_scope.
 
 Fixpoint nodupb (l : list Z) : bool := match l with [] => true | x :: r => negb (zmem x r) && nodupb r end.
@@ -454,3 +454,64 @@ Qed.
 Example ex_entries_tree_needed :
   entries_treeb (sh s_ua) (match nth_error (sh s_ua) 5 with Some o => ocells o | None => [] end) = false.
 Proof. vm_compute. reflexivity. Qed.
+
+(* ---- WHEN copy() is defined: the hypotheses of copy_M_defined are satisfiable (the traced instance after forest_ops: every entry
+   is an acyclic graph of lists / dicts / arrays / Trace objects; the class's __init__ runs through), under both memo policies *)
+Definition plainb (h : heap) (ls : list loc) : bool :=
+  forallb (fun a => match nth_error h a with Some o => copyable (okind o) | None => false end) ls.
+
+Lemma plainb_sound h ls : plainb h ls = true -> plain h ls.
+Proof.
+  unfold plainb. rewrite forallb_forall. intros H a Ha. specialize (H a Ha).
+  destruct (nth_error h a) as [o|]; [exists o; auto | discriminate].
+Qed.
+
+Definition entries_plainb (h : heap) (cs : list (Z * val)) : bool :=
+  match nodes_cells (nodes (S (length h)) h) cs with Some lsc => plainb h lsc | None => false end.
+
+Lemma entries_plainb_sound h cs : entries_plainb h cs = true -> entries_plain h cs.
+Proof.
+  unfold entries_plainb. destruct (nodes_cells (nodes (S (length h)) h) cs) as [lsc|] eqn:E; [|discriminate].
+  intros H. exists (S (length h)), lsc. split; [lia|]. split; [exact E | apply plainb_sound; exact H].
+Qed.
+
+Example ex_copy_defined_hypotheses :
+  exists o sp,
+    wf (sh s_fc) /\ nth_error (sh s_fc) 5 = Some o /\ okind o = KCont 4%nat /\ cell_get (A N_span) (ocells o) = Some sp /\
+    plain_tree (sh s_fc) sp /\ entries_plain (sh s_fc) (ocells o) /\
+    (forall h1 sp', deepcopy (sh s_fc) sp = Some (h1, sp') ->
+       snd (init_M h1 4%nat K0 (default_iargs K0 (val_src sp') (arr_len (sh s_fc) 5%nat [V N_status]))) = true).
+Proof.
+  destruct (nth_error (sh s_fc) 5) as [o|] eqn:Eo; [|vm_compute in Eo; discriminate].
+  assert (Oo : o = match nth_error (sh s_fc) 5 with Some x => x | None => o end) by (rewrite Eo; reflexivity).
+  exists o, (VS 401). split; [apply wfb_sound; vm_compute; reflexivity|]. split; [reflexivity|].
+  split; [rewrite Oo; vm_compute; reflexivity|]. split; [rewrite Oo; vm_compute; reflexivity|].
+  split; [exists 1%nat, []; split; [lia|]; split; [reflexivity | intros a []]|].
+  split; [apply entries_plainb_sound; rewrite Oo; vm_compute; reflexivity|].
+  intros h1 sp' D. vm_compute in D. inversion D; subst. vm_compute. reflexivity.
+Qed.
+
+(* ... and OUTSIDE the domain: an instance that holds another instance in an ordinary attribute (m.other = another_model) — Python
+   copies it (through __deepcopy__ of the nested object), the MODEL's copy is undefined; such histories are not `history_defined` *)
+Definition s_nested : state :=
+  let s := run_events K0 (s0 0 None) [EInit 0 (args range_span); EInit 0 (args range_span)] in
+  run_events K0 s [EActs 1 (add_attribute_acts 215 (SArg (nth 2 (sroots s) O)))].
+
+Example ex_nested_container_outside_the_domain :
+  copy_M K0 (sh s_nested) 5%nat = None /\ history_defined K0 s_nested [HCopyRoute RDeepCopy 1] = false /\
+  history_defined K0 s_fc [HCopyRoute RCopy 1; HCopyRoute RCopyCopy 1; HCopyRoute RDeepCopy 2; HOps 3 forest_ops] = true.
+Proof. vm_compute. repeat split; reflexivity. Qed.
+
+(* ---- siblings linkers built on COPIES of the submodels share nothing with each other, with the first linker or its submodels *)
+Example ex_sibling_linkers_on_copies :
+  let s1 := run_hevents K0 s_pre [HCopyRoute RCopy 2; HCopyRoute RDeepCopy 3;
+                                  HEv (ELinkerInit 1 [(601, 2%nat); (603, 3%nat)] 117);
+                                  HEv (ELinkerInit 1 [(601, 4%nat); (603, 5%nat)] 117)] in
+  length (sroots s1) = 8%nat /\
+  filter (fun x => (Nat.eqb (fst (fst x)) 6 && Nat.eqb (snd (fst x)) 7) || (Nat.ltb (fst (fst x)) 4 && Nat.eqb (snd (fst x)) 7 && negb (Nat.leb 4 (fst (fst x)))))
+         (sharing s1) = [] /\
+  map (fun x => fst x) (sharing s1) = [(2, 6); (3, 6); (4, 7); (5, 7)]%nat.
+Proof. vm_compute. repeat split; reflexivity. Qed.
+
+Example ex_key_attributes : KEY_ATTRIBUTES = A N_attributes.
+Proof. reflexivity. Qed.
